@@ -42,8 +42,8 @@ SSpec == SInit /\ [][SNext]_svars
 
 Export == Len(hist) = D => PrintT(<<"BEH", ToJson([cfg |-> CfgJson, steps |-> hist])>>)
 
-KindsSimPoA == KindsMixed \cup {Tx("plain", 0, 0), Tx("reverted", 0, 0), Tx("abort", 0, 0), Tx("revoke", 4, 0), Tx("out", 2, 0), Tx("in", 2, 0), Tx("mbp", 0, 4)}
-KindsSimPoS == KindsStake \cup {Tx("plain", 0, 0), Tx("reverted", 0, 0), Tx("abort", 0, 0), Tx("mbp", 0, 3), Tx("mbp", 0, 4), Tx("sinc", 2, 0), Tx("swd", 2, 0),
+KindsSimPoA == KindsMixed \cup {Tx("plain", 0, 0), Tx("reverted", 0, 0), Tx("abort", 0, 0), Tx("dep", 0, 1), Tx("dep", 0, 2), Tx("dep", 0, 4), Tx("revoke", 4, 0), Tx("out", 2, 0), Tx("in", 2, 0), Tx("mbp", 0, 4)}
+KindsSimPoS == KindsStake \cup {Tx("plain", 0, 0), Tx("reverted", 0, 0), Tx("abort", 0, 0), Tx("dep", 0, 1), Tx("dep", 0, 2), Tx("dep", 0, 4), Tx("mbp", 0, 3), Tx("mbp", 0, 4), Tx("sinc", 2, 0), Tx("swd", 2, 0),
                                 Tx("sadd", 3, 0), Tx("sexit", 3, 0)}
 CfgSimPoA == [auth |-> <<1, 2, 3>>, bal |-> [m \in Masters |-> IF m = 3 THEN 0 ELSE IF m = 1 THEN 2 ELSE 1], thr |-> 1, mbp |-> 3,
               hay |-> FALSE, tp |-> 0, E |-> 2, per |-> 2, queue |-> <<>>, cord |-> <<1, 2, 3, 4>>]
